@@ -47,7 +47,17 @@ UNITS = {
 }
 
 PROPERTY_NAMES = ['H', 'S', 'C', 'Cn', 'V', 'rho', 'mu', 'kappa', 'sigma', 'epsilon', 'Hvap', 'Cp',
-                  'alpha', 'nu', 'Pr', 'F_vol', 'Hnet', 'h', 'MW', 'F_mass', 'F_mol']
+                  'alpha', 'nu', 'Pr', 'F_vol', 'Hnet', 'h', 'MW', 'F_mass', 'F_mol',
+                  # quantities derived from the molar volume / molecular weight, as arrays
+                  'vol', 'z_vol', 'mass', 'z_mass']
+ARRAY_PROPERTIES = {'vol', 'z_vol', 'mass', 'z_mass'}
+
+
+def read_property(s, pname):
+    v = getattr(s, pname)
+    if pname in ARRAY_PROPERTIES:
+        return np.array(dense(v), dtype=float).ravel()
+    return v
 
 # ------------------------------------------------------------------ op sets per property
 
@@ -59,14 +69,14 @@ MIX_OPS = ['mix_from', 'split_to', 'separate_out', 'copy_flow', 'sum', 'iadd', '
 READ_OPS = ['read_prop', 'read_flow', 'read_total']
 
 OPS_BY_PROP = {
-    'C01': MIX_OPS * 3 + BACKGROUND_MUTATORS + ['copy', 'proxy', 'flow_proxy', 'view', 'set_phases',
+    'C01': MIX_OPS * 3 + BACKGROUND_MUTATORS + ['empty_negatives', 'copy', 'proxy', 'flow_proxy', 'view', 'set_phases',
                                                  'set_phase', 'restart', 'churn', 'link_with', 'unlink'],
     'C10': ['read_flow'] * 6 + ['set_flow'] * 4 + ['churn'] * 2 + ['mix_from', 'copy', 'restart',
                                                                   'set_phases', 'bad_key', 'view', 'bad_alias'],
     'C11': ['move_phase', 'read_flow', 'read_total', 'set_flow', 'set_flow', 'set_total', 'set_T', 'set_P', 'set_phase',
             'set_phases', 'link_with', 'unlink', 'proxy', 'flow_proxy', 'copy_like', 'copy', 'restart',
             'reset_cache', 'view', 'scale', 'mix_from', 'bad_units', 'churn', 'reduce_phases', 'empty',
-            'split_to', 'check_views', 'check_views', 'bad_link'],
+            'split_to', 'check_views', 'check_views', 'bad_link', 'empty_negatives'],
     'C02': ['set_energy'] * 5 + ['mix_energy'] * 5 + ['separate_energy'] * 2 + ['bad_energy'] + ['set_T', 'set_T', 'set_P', 'set_flow',
             'set_flow', 'scale', 'read_prop', 'read_prop', 'proxy', 'copy', 'restart', 'link_with', 'unlink',
             'flow_proxy', 'reset_cache', 'set_phase'],
@@ -79,7 +89,7 @@ OPS_BY_PROP = {
             'restart', 'pickle_obj', 'set_flow', 'set_flow', 'set_flow', 'set_T', 'set_P', 'set_phase', 'scale',
             'empty', 'set_total', 'mix_from', 'split_to', 'separate_out', 'read_prop', 'read_flow', 'save_data',
             'restore_data', 'set_phases', 'churn', 'bad_link'],
-    'C14': ['read_prop'] * 8 + BACKGROUND_MUTATORS * 2 + ['move_phase', 'move_phase', 'set_phase', 'set_phases', 'mix_from', 'split_to',
+    'C14': ['read_prop'] * 8 + BACKGROUND_MUTATORS * 2 + ['reset_thermo'] + ['move_phase', 'move_phase', 'set_phase', 'set_phases', 'mix_from', 'split_to',
             'copy_like', 'link_with', 'unlink', 'proxy', 'flow_proxy', 'view', 'restart', 'reset_cache',
             'reduce_phases', 'copy', 'separate_out', 'copy_flow'],
 }
@@ -711,6 +721,8 @@ class StreamWorld(BaseWorld):
         ev = {'stream': nm[0], 'view': view}
         if r.random() < 0.4:
             ev['units'] = r.choice(UNITS[view])[0]
+            if r.random() < 0.4:
+                ev['api'] = 'property'      # get_property('F_mass', units) instead of get_total_flow(units)
         return ev
 
     def gen_set_total(self, r):
@@ -721,6 +733,8 @@ class StreamWorld(BaseWorld):
         ev = {'stream': nm[0], 'view': view, 'value': r.choice([0.5, 1.0, 2.0, 10.0, 123.0])}
         if r.random() < 0.4:
             ev['units'] = r.choice(UNITS[view])[0]
+            if r.random() < 0.4:
+                ev['api'] = 'property'      # set_property('F_mass', value, units)
         return ev
 
     def gen_set_T(self, r):
@@ -736,6 +750,17 @@ class StreamWorld(BaseWorld):
     gen_imul = gen_scale
 
     def gen_empty(self, r):
+        return {'stream': self.names(r)[0]}
+
+    def gen_reset_thermo(self, r):
+        nm = self.names(r, pkgs=['A', 'Ax', 'C', 'Cx'])
+        if not nm:
+            return None
+        cur = self.pkg_of[nm[0]]
+        to = {'A': 'Ax', 'Ax': 'A', 'C': 'Cx', 'Cx': 'C'}[cur]
+        return {'stream': nm[0], 'to': to}
+
+    def gen_empty_negatives(self, r):
         return {'stream': self.names(r)[0]}
 
     def gen_read_prop(self, r):
@@ -765,7 +790,17 @@ class StreamWorld(BaseWorld):
     def gen_copy(self, r):
         if len(self.streams) >= 14:
             return None
-        return {'stream': self.names(r)[0], 'new': self.new_name('c')}
+        ev = {'stream': self.names(r)[0], 'new': self.new_name('c')}
+        if self.prop == 'C13':
+            if r.random() < 0.5:
+                ev['cv'] = True          # also look at the copy's mass / volumetric views
+            if r.random() < 0.3:
+                # copy(thermo=...): onto a package that holds the stream's chemicals (in another order)
+                cands = [p for p in ('A', 'A2', 'B', 'C') if p != self.pkg_of[ev['stream']]
+                         and self.pkg_of[ev['stream']] in universe.SUBPACKAGES.get(p, [])]
+                if cands:
+                    ev['to_pkg'] = r.choice(cands)
+        return ev
 
     def gen_proxy(self, r):
         if len(self.streams) >= 14:
@@ -788,7 +823,10 @@ class StreamWorld(BaseWorld):
         nm = self.names(r, 2)
         if not nm:
             return None
-        return {'stream': nm[0], 'other': nm[1]}
+        ev = {'stream': nm[0], 'other': nm[1]}
+        if self.prop == 'C13' and r.random() < 0.5:
+            ev['cv'] = True              # mass / volumetric flows are flows too
+        return ev
 
     def gen_link_with(self, r):
         nm = self.names(r, 2)
@@ -1188,6 +1226,20 @@ class StreamWorld(BaseWorld):
             return tuple(self.streams[a].phases) == tuple(self.streams[b].phases)
         return True
 
+    def pre_reset_thermo(self, ev):
+        n = ev['stream']
+        cur = self.pkg_of[n]
+        if {cur, ev['to']} not in ({'A', 'Ax'}, {'C', 'Cx'}) or cur == ev['to']:
+            return False
+        if self.is_view_locked(n):
+            return False
+        # only a stream that shares nothing with another handle (a proxy keeps its own package reference)
+        for grp in (self.fgroup, self.tgroup, self.pgroup, self.iclass):
+            if sum(1 for v in grp.values() if v == grp[n]) > 1:
+                return False
+        return not any(m.get('view_of') and m['view_of'][0] == n and not m.get('detached')
+                       for m in self.meta.values())
+
     def pre_bad_link(self, ev):
         a, b = ev['stream'], ev['other']
         if a == b or self.is_view_locked(a) or self.is_view_locked(b):
@@ -1373,7 +1425,7 @@ class StreamWorld(BaseWorld):
         op = ev['op']
         st = ev.get('stream')
         W = {'f': set(), 't': set(), 'p': set()}
-        if op in ('set_flow', 'set_total', 'scale', 'imul', 'empty', 'churn'):
+        if op in ('set_flow', 'set_total', 'scale', 'imul', 'empty', 'churn', 'empty_negatives'):
             W['f'].add(st)
         elif op == 'set_T' or op == 'set_P' or op == 'copy_thermal_condition':
             W['t'].add(st)
@@ -1907,7 +1959,10 @@ class StreamWorld(BaseWorld):
         view = ev['view']
         units = ev.get('units')
         if units:
-            r = self.call(ev, lambda: s.get_total_flow(units))
+            if ev.get('api') == 'property':
+                r = self.call(ev, lambda: s.get_property('F_' + view, units))
+            else:
+                r = self.call(ev, lambda: s.get_total_flow(units))
             factor = dict(UNITS[view])[units]
         else:
             r = self.call(ev, lambda: getattr(s, 'F_' + view))
@@ -1935,7 +1990,10 @@ class StreamWorld(BaseWorld):
         units = ev.get('units')
         value = ev['value']
         if units:
-            r = self.call(ev, lambda: s.set_total_flow(value, units))
+            if ev.get('api') == 'property':
+                r = self.call(ev, lambda: s.set_property('F_' + view, value, units))
+            else:
+                r = self.call(ev, lambda: s.set_total_flow(value, units))
             factor = dict(UNITS[view])[units]
         else:
             r = self.call(ev, lambda: setattr(s, 'F_' + view, value))
@@ -1957,6 +2015,14 @@ class StreamWorld(BaseWorld):
             if not close(back, value, 1e-9):
                 self.fail('total-readback', f'{name}: wrote total {value} {units or view}, read back {back}',
                           {'event': ev})
+            # the written total against the harness' own conversion table and view arithmetic
+            rows, undefined = self.expected_view_rows(name, after, view)
+            defined = not any((undefined[ph] & (after.rows[ph] != 0)).any() for ph in rows) if view == 'vol' else True
+            if defined:
+                want = sum(float(np.sum(x)) for x in rows.values()) * factor
+                if not close(want, value, 1e-9 if view != 'vol' else 1e-7):
+                    self.fail('total-units', f'{name}: wrote total {value} {units or view}; the flows now amount to '
+                              f'{want} in that unit (fixed conversion factor {factor})', {'event': ev})
         return 'ok'
 
     def do_bad_units(self, ev):
@@ -1985,6 +2051,42 @@ class StreamWorld(BaseWorld):
                 if ph not in after.rows or not close(after.rows[ph], before.rows[ph]):
                     self.fail('dimension-sideeffect', f'{what}({u!r}) was rejected but changed the flows')
         return 'rejected' if r[0] == 'exc' else 'accepted'
+
+    def do_reset_thermo(self, ev):
+        """The hook a unit operation uses to move a stream onto its own property package (here: same
+        chemicals object, other mixture rule).  Flows, phases, T and P stay; every property must follow."""
+        name = ev['stream']
+        s = self.streams[name]
+        before = self.project(name)
+        thermo = universe.package(ev['to']).thermo
+        r = self.call(ev, lambda: s._reset_thermo(thermo))
+        self.touch(name)
+        if r[0] == 'exc':
+            return self.unexpected(ev, r, 'reset_thermo')
+        self.pkg_of[name] = ev['to']
+        after = self.project(name)
+        if not self.same_proj(before, after):
+            self.fail('reset-thermo-state', f'{name}: changing the property package changed flows, phases, T or P',
+                      {'event': ev, 'before': before.to_json(), 'after': after.to_json()})
+        return 'ok'
+
+    def do_empty_negatives(self, ev):
+        """empty_negative_flows(): negative entries become zero, everything else (and every view) stays"""
+        name = ev['stream']
+        s = self.streams[name]
+        before = self.project(name)
+        r = self.call(ev, lambda: s.empty_negative_flows())
+        self.touch(name)
+        if r[0] == 'exc':
+            return self.unexpected(ev, r, 'empty_negatives')
+        after = self.project(name)
+        if self.prop in ('C01', 'C10', 'C11', 'C12'):
+            for ph in before.phases:
+                want = np.where(before.rows[ph] < 0, 0.0, before.rows[ph])
+                if ph not in after.rows or not close(after.rows[ph], want):
+                    self.fail('empty-negatives', f'{name}.empty_negative_flows() changed more than the negative entries',
+                              {'event': ev, 'before': before.to_json(), 'after': after.to_json()})
+        return 'ok'
 
     def do_bad_key(self, ev):
         name = ev['stream']
@@ -2113,7 +2215,7 @@ class StreamWorld(BaseWorld):
         name = ev['stream']
         s = self.streams[name]
         pname = ev['name']
-        r = self.call(ev, lambda: getattr(s, pname))
+        r = self.call(ev, lambda: read_property(s, pname))
         proj = self.project(name)
         if r[0] == 'exc' and r[2]:
             return self.unexpected(ev, r, 'read_prop')
@@ -2122,7 +2224,7 @@ class StreamWorld(BaseWorld):
         with faults.disarmed():
             twin = self.fresh_twin(proj)
             try:
-                tv = getattr(twin, pname)
+                tv = read_property(twin, pname)
                 texc = None
             except Exception as te:
                 tv = None
@@ -2142,6 +2244,14 @@ class StreamWorld(BaseWorld):
                 self.fail('stale-property', f'{name}.{pname} is {v!r}, fresh stream gives {tv!r}',
                           {'event': ev, 'state': proj.to_json()})
             return ['ok', None]
+        if pname in ARRAY_PROPERTIES:
+            with np.errstate(all='ignore'):
+                same = v.shape == tv.shape and bool(np.all((np.abs(v - tv) <= 1e-12 + 1e-9 * np.maximum(np.abs(v), np.abs(tv)))
+                                                           | (np.isnan(v) & np.isnan(tv))))
+            if not same:
+                self.fail('stale-property', f'{name}.{pname} returned {v.tolist()!r}; a freshly created stream with the '
+                          f'same flows, phases, T and P gives {tv.tolist()!r}', {'event': ev, 'state': proj.to_json()})
+            return ['ok', [fl(x) for x in v[:4]]]
         if not close(float(v), float(tv), 1e-9, 1e-12):
             self.fail('stale-property', f'{name}.{pname} returned {float(v)!r}; a freshly created stream with the same '
                       f'flows, phases, T and P gives {float(tv)!r}', {'event': ev, 'state': proj.to_json()})
@@ -2257,15 +2367,50 @@ class StreamWorld(BaseWorld):
     def do_copy(self, ev):
         name = ev['stream']
         s = self.streams[name]
-        r = self.call(ev, lambda: s.copy())
+        to_pkg = ev.get('to_pkg')
+        if to_pkg and self.pkg_of[name] not in universe.SUBPACKAGES.get(to_pkg, []):
+            return 'skip:pre'
+        if to_pkg:
+            thermo = universe.package(to_pkg).thermo
+            r = self.call(ev, lambda: s.copy(thermo=thermo))
+        else:
+            r = self.call(ev, lambda: s.copy())
         if r[0] == 'exc':
             return self.unexpected(ev, r, 'copy')
-        self.add_stream(ev['new'], r[1], self.pkg_of[name], 'copy', name)
+        self.add_stream(ev['new'], r[1], to_pkg or self.pkg_of[name], 'copy', name)
+        if self.prop == 'C13' and to_pkg:
+            pa, pb = self.project(name), self.project(ev['new'])
+            ok = (pa.kind == pb.kind and tuple(pa.phases) == tuple(pb.phases) and pa.T == pb.T and pa.P == pb.P
+                  and all(close(pb.rows[ph], self.mapped(name, ev['new'], pa.rows[ph])) for ph in pa.phases))
+            if not ok:
+                self.fail('copy-differs', f'{name}.copy(thermo=<{to_pkg}>) differs from the original',
+                          {'original': pa.to_json(), 'copy': pb.to_json()})
+            # the copy answers by NAME like the original does (its lookups belong to its own package)
+            c = r[1]
+            src = self.pk(name)
+            with faults.disarmed():
+                for ph in pa.phases:
+                    for k, cid in enumerate(src.ids):
+                        key = (ph, cid) if pa.kind == 'multi' else cid
+                        try:
+                            got = float(c.imol[key])
+                        except Exception as e:
+                            self.fail('copy-differs', f'{name}.copy(thermo=<{to_pkg}>).imol[{key!r}] raised '
+                                      f'{type(e).__name__}: {e}')
+                        if not close(np.array([got]), np.array([pa.rows[ph][k]])):
+                            self.fail('copy-differs', f'{name}.copy(thermo=<{to_pkg}>).imol[{key!r}] reads {got!r}, the '
+                                      f'original holds {float(pa.rows[ph][k])!r}',
+                                      {'original': pa.to_json(), 'copy': pb.to_json()})
+            if ev.get('cv'):
+                self.check_views(ev['new'], ev)
+            return 'ok'
         if self.prop == 'C13':
             pa, pb = self.project(name), self.project(ev['new'])
             if not self.same_proj(pa, pb):
                 self.fail('copy-differs', f'{name}.copy() differs from the original',
                           {'original': pa.to_json(), 'copy': pb.to_json()})
+            if ev.get('cv'):
+                self.check_views(ev['new'], ev)
             if pb.kind == 'single':
                 # a copy is an ordinary stream of its own: its phase can be re-assigned without touching the original
                 c = r[1]
@@ -2343,6 +2488,8 @@ class StreamWorld(BaseWorld):
                     if lab not in pa.rows or not close(pa.rows[lab], self.mapped(b, a, row)):
                         self.fail('copy_like-phase', f'{a}.copy_like({b}): material of phase {ph} is not found under '
                                   f'that label', {'event': ev, 'a': pa.to_json(), 'b': pb.to_json()})
+            if ev.get('cv') and self.prop == 'C13':
+                self.check_views(a, ev)
         return 'ok'
 
     def do_link_with(self, ev):
